@@ -36,6 +36,8 @@ class RD(SeqCheck):
         kind, w, m = [int(x) for x in conf.split()]
         if pid == "C04" and kind == 1 and m == 1 and all((c & 2) == 0 for c in codes):
             return "wrap-max-1"
+        if pid == "C04" and kind == 1 and m == 3 and w >= 4 and all((c & 2) == 0 for c in codes):
+            return "wrap-max-3"
         return None
 
 
@@ -53,7 +55,9 @@ class C04(RD):
                   "fixedBigInt (Lsh/SetBit/Bit, all words) in a sixth of the histories")
     level_note = ("trusted: Coq kernel, extraction + OCaml driver, Go harness/generator; theorem is about the model, the tie to "
                   "the code is differential testing; accept() assumed to be invoked at most once right after its Check; "
-                  "known finding: WithWrap over the space 0..1 (C04_wrap_max1_refuted)")
+                  "known findings in degenerate sequence spaces: WithWrap over 0..1 (C04_wrap_max1_refuted) and WithWrap(window >= 4, maximum 3) "
+                  "(C04_wrap_max3_refuted): C04_wrap_no_replay guards numbers relative to the detector's own position, which in these "
+                  "tiny spaces can differ from the newest accepted number; the Spec oracle, which does not, reports them")
 
     def oracle_codes_for(self, pid):
         return 3
@@ -575,7 +579,7 @@ class C10(SeqCheck):
     oracle_entry = None
     overlay = {"vnet/verif_export.go": "vnet/verif_export.go", "udp/verif_export.go": "udp/verif_export.go"}
     quick_n = 3000
-    thorough_n = 100000
+    thorough_n = 30000   # about 4.5 histories per second and shard: 2500 per shard stay well inside the harness timeout
     shards = 12
     design_ref = "4 (C10)"
     technique = "Coq proof (closed form of read/deadline interaction: timeout iff a non-zero deadline has passed, persistence, release at the deadline, reset) + exact virtual-time differential check on five connection types"
